@@ -179,7 +179,7 @@ for n, props, sym, kw in [
     ("fu_inspan_scope_pending", ["C13", "C10"], "token item, span id", dict(mem_gb=20, cap_s=1500)),
     ("fu_inspan_finish_ready_root", ["C13", "C03"], "token item, span id, collect id", dict(mem_gb=24, cap_s=1800, flags=NOCHK + ["--no-overflow-checks"])),
     ("fu_inspan_drop_unfinished", ["C13"], "token item, span id", {}),
-    ("fu_inspan_scope_inside_own_scope", ["C13", "C10"], "token item, span id; the same span already is the thread's local parent", dict(mem_gb=30, cap_s=1800)),
+    ("fu_inspan_scope_inside_own_scope", ["C13"], "token item, span id; the same span already is the thread's local parent", dict(mem_gb=20, cap_s=1800)),
     ("fu_enter_on_poll_no_parent", ["C13", "C16"], "none", {}),
 ]:
     H("fastrace", "future", n, [p for p in props if p != "C03"], sym=sym, bound=FUB, models=SPM, **kw)
